@@ -385,11 +385,12 @@ pub fn run(cx: &mut Ctx) {
         }
     }
 
+    cx.note("cases excluded for the known trailing-delimiter finding had every other assertion (index, random access, cursor, DsvRef, append-separator shape) evaluated first; only the missing last empty field is tolerated");
     let max = if cx.tier == Tier::Quick { 1000 } else { 3000 };
     cx.check(
         "rows-fields-vs-model",
         RULE,
-        Budget { quick: 250_000, thorough: 10_000_000, max_len: 3000 },
+        Budget { quick: 400_000, thorough: 12_000_000, max_len: 9000 },
         move |u, st| {
             let (c, cfg_kind) = dsv::cfg(u);
             let (t, kind) = dsv::text(u, c, max);
